@@ -317,7 +317,8 @@ class ExecutionPlan:
             # This step is only relevant for multi processing.
             for _ep in new_execution_plan:
                 if isinstance(_ep, FeatureGroupStep):
-                    if _ep.features.any_uuid in need_to_upload_collector:
+                    # any feature of the step may be the one another framework reads (any_uuid is an arbitrary member)
+                    if need_to_upload_collector.intersection(_ep.get_uuids()):
                         _ep.need_to_upload = True
 
         # 1.7.2024
